@@ -4,6 +4,8 @@ import QModel.AtomsIO
 import QModel.AdaptiveIO
 import QModel.OpsIO
 import QModel.CriteriaIO
+import QModel.RunLoopIO
+import QModel.FilesIO
 /-! Model driver: one operation per line on stdin, one canonical result line on stdout.
     Run with `lake env lean --run Driver.lean`. -/
 
@@ -17,6 +19,8 @@ def dispatch (line : String) : String :=
     else if cmd = "c18direct" || cmd = "c18run" then AFB.handle ws
     else if cmd = "ops" then Ops.handle ws
     else if cmd = "crit" || cmd = "crit-raw" then Crit.IO.handle ws
+    else if cmd = "runloop" then RunLoop.handle ws
+    else if cmd = "files" || cmd = "fcall" then Files.handle ws
     else "bad-op"
 
 partial def loop (h : IO.FS.Stream) (out : IO.FS.Stream) : IO Unit := do
